@@ -38,19 +38,34 @@ FillValue(ratios, f, rem, variant) ==
 NFill(ratios) == Len(ratios) + 1
 NGas(ratios, x) == NFill(ratios) + Len(x)
 
+\* What the validity test and the split see of the REQUESTED trace abundances x.  The statement quantifies over the
+\* requested profiles ("if the traces exceed one anywhere the model is rejected"): a single gas may carry the whole
+\* excess.  The wrong design "clip_traces" makes every gas profile "physical" (cut to [0, 1]) before the test sees it.
+RClip01(v) == IF RLt(v, RZero) THEN RZero ELSE IF RLt(ROne, v) THEN ROne ELSE v
+Seen(x, variant) ==
+    IF variant = "clip_traces" THEN [g \in 1..Len(x) |-> [l \in 1..Len(x[g]) |-> RClip01(x[g][l])]] ELSE x
+
 Mix(ratios, x, n, variant) ==
-    [g \in 1..NGas(ratios, x) |-> [l \in 1..n |->
-        IF g <= NFill(ratios) THEN FillValue(ratios, g, Remainder(x, l), variant)
-        ELSE x[g - NFill(ratios)][l]]]
+    LET s == Seen(x, variant)
+    IN  [g \in 1..NGas(ratios, x) |-> [l \in 1..n |->
+            IF g <= NFill(ratios) THEN FillValue(ratios, g, Remainder(s, l), variant)
+            ELSE s[g - NFill(ratios)][l]]]
 
 Rejected(x, n, variant) ==
     IF variant = "no_validity" THEN FALSE
     ELSE IF variant = "strict_ge" THEN \E l \in 1..n : RLe(ROne, TraceTotal(x, l))
-    ELSE ExceedsOne(x, n)
+    ELSE ExceedsOne(Seen(x, variant), n)
 
 LayerSum(mix, l) == RSumSeq([g \in 1..Len(mix) |-> mix[g][l]])
 \* mass[g] rational, result in the same unit
 Mu(mix, mass, l) == RSumSeq([g \in 1..Len(mix) |-> RMul(mix[g][l], mass[g])])
+\* The SCALAR mean molecular weight (the derived parameter `mu`, documented "at the surface"; every public route to
+\* it: the property, the derived-parameter registry) is the weighted sum with the weights of layer 1.  Wrong designs:
+\* "mu_layer_mean" (weights averaged over the layers), "mu_top_layer" (weights of the last layer).
+MuScalarWeights(mix, n, variant) ==
+    [g \in 1..Len(mix) |-> IF variant = "mu_layer_mean" THEN RDiv(RSumSeq(mix[g]), Q(n))
+                           ELSE IF variant = "mu_top_layer" THEN mix[g][n] ELSE mix[g][1]]
+WeightedSum(w, mass) == RSumSeq([g \in 1..Len(w) |-> RMul(w[g], mass[g])])
 
 \* ---------------------------------------------------------- active / inactive
 Indices(gases) == [i \in 1..Len(gases) |-> i]
